@@ -551,3 +551,17 @@ Proof.
   destruct (meth_ok_sound lockA AllFaults 0 (fst c) (H c (or_introl eq_refl)) (snd c)) as [_ A].
   rewrite A. apply IH. intros c' Hin. apply H. right; exact Hin.
 Qed.
+
+(* the store object is created once: with an accepted guard shape, constructing further shells (importers,
+   topologies) never replaces an existing store, whatever it holds *)
+Theorem singleton_identity sh : singleton_ok sh = true -> forall n, replaces sh (Some n) = false.
+Proof.
+  unfold singleton_ok, replaces. destruct (sg_guard sh); intros H n; [reflexivity|].
+  destruct (sg_has_len sh), (sg_has_bool sh); simpl in H; try discriminate. reflexivity.
+Qed.
+
+Theorem singleton_rejected_witness sh : singleton_ok sh = false -> exists n, singleton_witness sh = Some n /\ replaces sh (Some n) = true.
+Proof.
+  unfold singleton_ok, singleton_witness, replaces. destruct (sg_guard sh); [discriminate|].
+  destruct (sg_has_bool sh), (sg_has_len sh); simpl; intro H; try discriminate; exists 0; split; reflexivity.
+Qed.
